@@ -789,6 +789,7 @@ func checkC19(c *Ctx) {
 		hist = append(hist, fmt.Sprintf("cause(%q)", text))
 		var cur error = leaf
 		var top *parser.NestedError
+		var stack []*parser.NestedError // every layer, innermost first
 		layers, sets := 0, 0
 		steps := 2 + c.R.Intn(10)
 		for k := 0; k < steps; k++ {
@@ -798,6 +799,7 @@ func checkC19(c *Ctx) {
 				msg := pick(c.R, msgPool)
 				top = &parser.NestedError{Err: cur, Msg: msg}
 				cur = top
+				stack = append(stack, top)
 				layers++
 				fields = append(fields, "WRAP "+hx(msg))
 				hist = append(hist, fmt.Sprintf("wrap(%q)", msg))
@@ -837,6 +839,41 @@ func checkC19(c *Ctx) {
 				sets++
 				fields = append(fields, "SET "+strings.Join(kv, " "))
 				hist = append(hist, fmt.Sprintf("Set(%v)", strings.Join(kv, ",")))
+			case roll == 6 && len(stack) > 1 && c.R.Chance(1, 2):
+				// Set / Error() on a layer BELOW the outermost one (the caller kept a reference to it): what the layers above
+				// report afterwards must follow
+				d := 1 + c.R.Intn(len(stack)-1)
+				inner := stack[len(stack)-1-d]
+				if c.R.Chance(2, 3) {
+					vals := parser.ErrVals{}
+					var kv []string
+					for j := c.R.Intn(3); j >= 0; j-- {
+						key := pick(c.R, keyPool)
+						v := pick(c.R, valPool)()
+						if _, dup := vals[key]; dup {
+							continue
+						}
+						vals[key] = v
+						enc := "U"
+						if b, err := safeMarshal(v); err == nil {
+							enc = "E" + hx(string(b))
+						}
+						kv = append(kv, hx(key)+" "+enc)
+					}
+					inner.Set(vals)
+					fields = append(fields, fmt.Sprintf("SETAT %d ", d)+strings.Join(kv, " "))
+					hist = append(hist, fmt.Sprintf("layer[-%d].Set(%v)", d, strings.Join(kv, ",")))
+				} else {
+					t, f := errorText(inner)
+					if f != "" && t == "" && strings.Contains(f, "panicked") {
+						got = append(got, "PANIC")
+					} else {
+						got = append(got, hx(t))
+					}
+					fields = append(fields, fmt.Sprintf("ERRORAT %d", d))
+					hist = append(hist, fmt.Sprintf("layer[-%d].Error()", d))
+				}
+				c.count("operation_on_an_inner_layer")
 			case roll < 9:
 				t, f := errorText(top)
 				if f != "" && t == "" && strings.Contains(f, "panicked") {
